@@ -130,6 +130,13 @@ def sample_options(rng, name, K, N, lead, with_aligner=False):
         o['affiliation_eps'] = float(rng.choice([0.0, 1e-10, 1e-3]))
         o['spatial_weight'] = float(rng.choice([1.0, 0.5, 2.0]))
         o['spectral_weight'] = float(rng.choice([1.0, 0.3, 1.7]))
+        if rng.random() < 0.3:
+            o['hermitize'] = bool(rng.random() < 0.5)
+        if rng.random() < 0.3:
+            o['eigenvalue_floor'] = float(rng.choice([1e-10, 1e-6, 1e-3]))
+        if name == 'vmfcacgmm' and rng.random() < 0.3:
+            o['min_concentration'] = float(rng.choice([1e-10, 0.5]))
+            o['max_concentration'] = float(rng.choice([500, 50, 5]))
         if name == 'gcacgmm':
             o['covariance_type'] = ['full', 'diagonal', 'spherical'][int(rng.integers(0, 3))]
         if rng.random() < 0.25 and K <= 3:
